@@ -94,3 +94,18 @@ Fixpoint qel_close (a b : list qedge) : bool :=
   | x :: a', y :: b' => Nat.eqb (qsrc x) (qsrc y) && Nat.eqb (qdst x) (qdst y) && close53 (qw x) (qw y) && qel_close a' b'
   | _, _ => false
   end.
+
+(* normalize(2): edge (a, b) is divided by sqrt(in_sum a) * sqrt(out_sum b) (entry (a,b) of
+   diag(1/sqrt(column sums)) * A * diag(1/sqrt(row sums))).  Square roots are not rational: the model
+   gives the SQUARE of every new weight; the harness compares it with the exact square of the returned
+   float up to 2^-49 relative (three correctly rounded operations and two square roots). *)
+Definition normalize2_sq_model (E : list qedge) : list qedge :=
+  map (fun e => (qsrc e, qdst e, Qred (qw e * qw e / (in_sum E (qsrc e) * out_sum E (qdst e)))%Q)) E.
+Definition close49 (f r : Q) : bool :=
+  Qle_bool (Qabs (f - r)) (Qabs r * (1 # 562949953421312))%Q.
+Fixpoint qel_close49 (a b : list qedge) : bool :=
+  match a, b with
+  | [], [] => true
+  | x :: a', y :: b' => Nat.eqb (qsrc x) (qsrc y) && Nat.eqb (qdst x) (qdst y) && close49 (qw x) (qw y) && qel_close49 a' b'
+  | _, _ => false
+  end.
